@@ -52,20 +52,17 @@ class reducing_adapter {
 
       size_t slot = std::hash<key_type>{}(key) % cache_size;
 
+      // Evict a different key first. The flush can run handlers that use
+      // this slot, so re-check until it is free or already holds key.
+      while (m_cache[slot].occupied && !(m_cache[slot].key == key)) {
+        cache_flush(slot);
+      }
       if (m_cache[slot].occupied == false) {
         m_cache[slot].key      = key;
         m_cache[slot].value    = value;
         m_cache[slot].occupied = true;
-      } else {  // Slot is occupied
-        if (m_cache[slot].key == key) {
-          m_cache[slot].value = m_reducer(m_cache[slot].value, value);
-        } else {
-          cache_flush(slot);
-          ASSERT_DEBUG(m_cache[slot].occupied == false);
-          m_cache[slot].key      = key;
-          m_cache[slot].value    = value;
-          m_cache[slot].occupied = true;
-        }
+      } else {
+        m_cache[slot].value = m_reducer(m_cache[slot].value, value);
       }
     }
   }
@@ -75,24 +72,29 @@ class reducing_adapter {
     int next_dest = m_container.comm().router().next_hop(
         m_container.owner(m_cache[slot].key), ygm::detail::routing_type::NLNR);
 
+    // Copy out and free the slot before sending: the send can run handlers
+    // that reduce into this cache.
+    const key_type    key   = m_cache[slot].key;
+    const mapped_type value = m_cache[slot].value;
+    m_cache[slot].occupied  = false;
+
     m_container.comm().async(
         next_dest,
         [](auto p_reducing_adapter, const key_type &key,
            const mapped_type &value) {
           p_reducing_adapter->cache_reduce(key, value);
         },
-        pthis, m_cache[slot].key, m_cache[slot].value);
-
-    m_cache[slot].occupied = false;
+        pthis, key, value);
   }
 
   void cache_flush_all() {
+    // Reductions made by handlers while flushing must register a new callback.
+    m_cache_empty = true;
     for (size_t i = 0; i < cache_size; ++i) {
       if (m_cache[i].occupied) {
         cache_flush(i);
       }
     }
-    m_cache_empty = true;
   }
 
   void container_reduction(const key_type &key, const mapped_type &value) {
